@@ -228,7 +228,7 @@ PROPS["C10"] = dict(
                "reproduce. Signals are not sent at the trigger line itself (the server installs its handlers just after printing it).",
     rule="non-trivial = the stop fired and the transfer ended stopped (not success); distinct by SHA-1 of the case JSON (scenario, event, kind, initiator)",
     tests=[dict(name="TestVF_C10", rapid=False, env=dict(VERIF_CASE_LIMIT=300),
-                quick=dict(shards=32, timeout=1200, env=dict(VERIF_C10_STRIDE=7)),
+                quick=dict(shards=32, timeout=1200, env=dict(VERIF_C10_STRIDE=9)),
                 thorough=dict(shards=32, timeout=14000, env=dict(VERIF_C10_STRIDE=1)))],
 )
 
